@@ -585,7 +585,9 @@ def root_cause_sig(m):
             return _elements(x[1]) + _elements(x[2]) if node_class(x) == "and" else [x]
         if parent not in ("and", "prob"):
             # (a conjunction is transparent: its elements count as children, before the conjunction itself)
-            kids = [e for c in kids if node_class(c) == "and" for e in _elements(c)] + kids
+            # (a disjunction inside a conjunction is printed with its parentheses: not a suspect by itself)
+            kids = [e for c in kids if node_class(c) == "and" for e in _elements(c)
+                    if node_class(e) not in ("or", "and")] + kids
         for cls in ("or", "not", "infix-hi", "prob", "clause", "and", "prefix", "neg-number", "list", "infix"):
             hit = [c for c in kids if node_class(c) == cls]
             if hit:
@@ -615,19 +617,20 @@ def root_cause_sig(m):
         if inner is None:
             # no single element: all elements of one class together (f((not a, not a)))
             def _subst(x, cls):
+                # (conjunctions and, below them, disjunctions are transparent)
                 if node_class(x) == cls:
                     return ["atom", "z"]
-                if node_class(x) == "and":
-                    return ["and", _subst(x[1], cls), _subst(x[2], cls)]
+                if node_class(x) in ("and", "or"):
+                    return [x[0], _subst(x[1], cls), _subst(x[2], cls)]
                 return x
 
             def _first(x, cls):
                 if node_class(x) == cls:
                     return x
-                if node_class(x) == "and":
+                if node_class(x) in ("and", "or"):
                     return _first(x[1], cls) or _first(x[2], cls)
                 return None
-            for cls in ("or", "not", "infix-hi", "prob", "clause", "prefix", "neg-number"):
+            for cls in ("not", "or", "infix-hi", "prob", "clause", "prefix", "neg-number"):
                 hit = _first(offending, cls)
                 if hit is None:
                     continue
